@@ -121,9 +121,9 @@ func runC05(args []string) error {
 	}
 	sm := newSummary("C05")
 	r := newRng(*seed)
-	nMain, nRegion, nCyc, nHost, nHostX := 80, 32, 4, 30, 40
+	nMain, nRegion, nCyc, nHost, nHostX, nPoly := 80, 32, 4, 30, 40, 40
 	if *tier == "thorough" {
-		nMain, nRegion, nCyc, nHost, nHostX = 1700, 500, 40, 800, 1500
+		nMain, nRegion, nCyc, nHost, nHostX, nPoly = 1700, 500, 40, 800, 1500, 1500
 	}
 	t0 := time.Now()
 	st := &c05State{sm: sm, distinct: distinctSet{}, out: *out}
@@ -160,6 +160,20 @@ func runC05(args []string) error {
 	for i := 0; i < nHost; i++ {
 		h := genC05Host(r.fork())
 		st.extras = append(st.extras, &c05Extra{id: 900000000 + i*1000, name: fmt.Sprintf("h%d", i), src: h.source(), input: h.describe()})
+	}
+	// polymorphic call sites: one interface call site executed consecutively with different receivers
+	for i := 0; i < nPoly; i++ {
+		rr := r.fork()
+		for try := 0; try < 20; try++ {
+			src, desc := genC05Poly(rr.fork())
+			if _, err := c05CheckLocked(src); err != nil {
+				st.note("polysite program rejected by go/types (generator defect): %s", firstLine(err.Error()))
+				continue
+			}
+			st.extras = append(st.extras, &c05Extra{id: 700000000 + i*1000, name: fmt.Sprintf("s%d", i), src: src,
+				input: map[string]any{"level": "polysite", "sites": desc}})
+			break
+		}
 	}
 	{
 		// interfaces probed dynamically by compiled code: all subsets (every run) + random chains
